@@ -35,6 +35,10 @@ IO_X = ["val put = 1; val get = 2; proc main() is { put(get(256), 0); put(get(25
         "val put = 1; val get = 2; proc main() is { put(get(0), 0); put(get(0), 0); put(get(0) - 100, 0); 0(get(0)) }",
         "val put = 1; val get = 2; var x; proc main() is { x := get(512); put(x, 768); put(x - 190, 0); x := get(511) + get(256); 0(x) }",
         "val put = 1; val get = 2; var x; var n; proc main() is { n := 0; x := get(256); while (n < 6) and (x ~= 255) do { put(x, 0); x := get(256); n := n + 1 }; 0(x) }"]
+# programs that take only part of the input they are given (what is left belongs to the next reader of the same file)
+PARTIAL_X = ["val put = 1; val get = 2; proc main() is { put(get(0), 0); 0(3) }",
+             "val put = 1; val get = 2; proc main() is var c; { c := get(0); while c ~= '.' do { put(c, 0); c := get(0) }; 0(7) }",
+             "proc main() is 0(5)"]
 IO_FILES = [{}, {1: b""}, {1: b"A"}, {1: b"hello world"}, {1: b"\xff\x80", 2: b"q"}]
 LOOP_X = ["proc main() is while true do skip", "var g; proc main() is { g := 0; while g >= 0 do g := g + 1 }"]
 
@@ -76,6 +80,9 @@ def images(tier, rnd):
     for i, s in enumerate(IO_X):
         for k, fl in enumerate(IO_FILES):
             xs.append(("io%d_%d" % (i, k), s, b"" if k % 2 == 0 else b"Zq", "defined", fl))
+    for i, s in enumerate(PARTIAL_X):
+        for k, inp in enumerate((b"abc.defghij\n", b"x.", b"q." + b"z" * 9000)):
+            xs.append(("io-partial%d_%d" % (i, k), s, inp, "defined", {}))
     ngen = 300 if tier == "quick" else 8000
     for i in range(ngen):
         prog, console, files = xgen.random_program(random.Random(rnd.randrange(1 << 62)), size=0.5)
@@ -136,30 +143,30 @@ def exe_worker(job):
             for st in states:
                 env = {"PATH": os.environ.get("PATH", "/usr/bin:/bin")}
                 env.update(st["env"])
-                try:
-                    r = subprocess.run(st["wrap"] + [os.path.join(cli, "hexsim")] + opt + [p], input=inp, stdout=subprocess.PIPE,
-                                       stderr=subprocess.PIPE, cwd=d, env=env, timeout=120)
+                # standard input is a regular file: the position the process leaves it at is part of "input consumption"
+                rc, so_, se_, left_at = common.run_file_stdin(st["wrap"] + [os.path.join(cli, "hexsim")] + opt + [p], inp, cwd=d, env=env, timeout=120)
+                if rc == "timeout":
+                    outs.append((st["name"], b"", "error:TimeoutExpired", None))
+                else:
                     so = b"".join(b"[%s]" % n.encode() + open(os.path.join(d, n), "rb").read() for n in sorted(os.listdir(d)) if n.startswith("simout"))
-                    outs.append((st["name"], r.stdout + so, r.returncode))
+                    outs.append((st["name"], so_ + so, rc, left_at))
                     for n in os.listdir(d):
                         if n.startswith("simout"):
                             os.unlink(os.path.join(d, n))
-                except (subprocess.TimeoutExpired, OSError) as e:
-                    outs.append((st["name"], b"", "error:%s" % type(e).__name__))
                 nruns += 1
             ref = outs[0]
             if kind != "loop":
                 # -t only adds trace text: the exit status must not change
-                try:
-                    rt = subprocess.run([os.path.join(cli, "hexsim"), "-t"] + opt + [p], input=inp, stdout=subprocess.PIPE,
-                                        stderr=subprocess.PIPE, cwd=d, env={"PATH": os.environ.get("PATH", "/usr/bin:/bin")}, timeout=300)
+                rc_t, _, _, left_t = common.run_file_stdin([os.path.join(cli, "hexsim"), "-t"] + opt + [p], inp, cwd=d,
+                                                           env={"PATH": os.environ.get("PATH", "/usr/bin:/bin")}, timeout=300)
+                if rc_t != "timeout":
                     nruns += 1
-                    if rt.returncode != ref[2]:
-                        bad.append(("trace-changes-status", {"image": tag, "untraced": ref[2], "traced": rt.returncode}))
-                except subprocess.TimeoutExpired:
-                    pass
+                    if rc_t != ref[2]:
+                        bad.append(("trace-changes-status", {"image": tag, "untraced": ref[2], "traced": rc_t}))
+                    elif left_t != ref[3]:
+                        bad.append(("trace-changes-input-consumption", {"image": tag, "input_bytes": len(inp), "untraced_left_at": ref[3], "traced_left_at": left_t}))
             for o in outs[1:]:
-                if (o[1], o[2]) != (ref[1], ref[2]):
+                if (o[1], o[2], o[3]) != (ref[1], ref[2], ref[3]):
                     bad.append(("host-state:%s" % ("cut-short-status" if kind == "loop" else ("uninitialised-memory" if kind == "rbw" else "defined-program")),
                                 {"image": tag, "options": opt, "clean": [repr(ref[1][:60]), ref[2]], "other": [o[0], repr(o[1][:60]), o[2]]}))
                     break
@@ -299,8 +306,13 @@ def run(tier, replay=None):
     nexe = 1000 if tier == "quick" else 30000
     v.count("images_leaving_the_memory_range_or_not_finishing_excluded", len(leaves_range))
     imgs = [im for i, im in enumerate(imgs) if i not in leaves_range]
-    sel = [im for im in imgs if im[3] != "defined" or im[0].startswith("io")] + [im for im in imgs if im[3] == "defined" and not im[0].startswith("io")]
-    sel = sel[:max(50, nexe // nst)]
+    budget = max(50, nexe // nst)
+    special = [im for im in imgs if (im[3] != "defined" or im[0].startswith("io")) and ":cut" not in im[0]]
+    cuts_ = [im for im in imgs if ":cut" in im[0]]
+    plain = [im for im in imgs if im[3] == "defined" and not im[0].startswith("io")]
+    # a third of what is left after the hand-written images goes to truncated files, the rest to generated programs
+    room = max(0, budget - len(special))
+    sel = special + cuts_[:room // 3] + plain[:room - min(len(cuts_), room // 3)]
     cuts = [1, 7, 100, 5000]
     outs = common.pmap(exe_worker, [(cli, sel[i::W], states, cuts) for i in range(W)])
     for n, bad in outs:
